@@ -35,7 +35,7 @@ def bounds(tier):
 
 def goals(tier):
     return ["contained-only-across-origin", "query-longer-than-record-rejected", "query-equal-length-rotation", "empty-query",
-            "slice-cases", "add-cases", "ctor-linear-rejected", "ctor-circular-accepted", "copy-mutations"]
+            "slice-cases", "add-cases", "ctor-linear-rejected", "ctor-circular-accepted", "copy-mutations", "membership-after-sequence-replaced"]
 
 
 def units(tier):
@@ -52,6 +52,8 @@ def units(tier):
             us.append(("contains", ("AC", n, c, chunks)))
     for n in b["slice_len"]:
         us.append(("slice", n))
+    for c in range(8):
+        us.append(("history", (c, 8)))
     us.append(("add", None))
     us.append(("ctor", None))
     us.append(("copy", None))
@@ -68,6 +70,8 @@ def space_size(tier):
     for n in b["slice_len"]:
         total += 2 * (2 * n + 6) ** 2 * len(b["steps"])
     total += 3 * 3 * len(OPERANDS) + 2 * len(TOPOLOGIES) * len(CTOR_FORMS) + len(SOURCES) * len(MUTATIONS) * 2
+    nseq = sum(4 ** n for n in range(2, (3 if tier == "quick" else 4) + 1))
+    total += nseq * (nseq - 1)
     return total
 
 
@@ -75,6 +79,8 @@ def run_unit(unit, st, tier):
     kind, arg = unit
     if kind == "contains":
         unit_contains(st, *arg)
+    elif kind == "history":
+        unit_history(st, arg[0], arg[1], tier)
     elif kind == "slice":
         unit_slice(st, arg, bounds(tier)["steps"])
     elif kind == "add":
@@ -150,6 +156,32 @@ def unit_contains(st, alpha, n, c, chunks):
         st.outcomes["not-contained"] += n_out
     if seqs:
         st.sample(dict(sub="contains", seq=seqs[-1], query=(seqs[-1][-1] + seqs[-1][0])))
+
+
+def unit_history(st, c, chunks, tier):
+    """membership follows the record's CURRENT sequence: query, replace the sequence (same or other length), query again --
+    every ordered pair of sequences over ACGT of length 2..3 (4 in thorough), every query up to length n+1"""
+    maxlen = 3 if tier == "quick" else 4
+    seqs = [""] and ["".join(t) for n in range(2, maxlen + 1) for t in itertools.product("ACGT", repeat=n)]
+    queries = [""] + ["".join(t) for l in range(1, maxlen + 2) for t in itertools.product("ACGT", repeat=l)]
+    subs = {s: circ_substrings(s) for s in seqs}
+    pairs = [(a, b) for a in seqs for b in seqs if a != b][c::chunks]
+    for a, b in pairs:
+        rec = CircularRecord(Seq(a), id="h")
+        ("A" in rec), (a in rec), ((a + a) in rec)            # earlier, legitimate queries
+        rec.seq = Seq(b)                                      # the record now holds another sequence
+        bad = None
+        for q in queries:
+            if (q in rec) is not (q in subs[b]):
+                bad = q
+                break
+        st.scenario("history", None, calls=len(queries) + 4)
+        st.nontrivial += 1
+        st.goals["membership-after-sequence-replaced"] += 1
+        if bad is not None:
+            st.violation("history", "membership-answers-for-an-earlier-sequence", dict(sub="history", first=a, then=b, query=bad),
+                         bad in subs[b], bad in rec)
+    st.sample(dict(sub="history", first="ACG", then="TTA", query="TA"))
 
 
 def slice_record(n, variant):
@@ -368,6 +400,13 @@ def replay(scn, sub, st):
         got = q in CircularRecord(Seq(s), id="c")
         if got is not exp:
             st.violation(sub, "membership", scn, exp, got)
+    elif sub == "history":
+        rec = CircularRecord(Seq(scn["first"]), id="h")
+        ("A" in rec), (scn["first"] in rec)
+        rec.seq = Seq(scn["then"])
+        q = scn["query"]
+        if (q in rec) is not (q in circ_substrings(scn["then"])):
+            st.violation(sub, "membership-answers-for-an-earlier-sequence", scn, q in circ_substrings(scn["then"]), q in rec)
     elif sub == "slice":
         check_slice(st, scn["n"], scn["annotated"], scn["start"], scn["stop"], scn["step"])
     elif sub == "add":
